@@ -126,6 +126,37 @@ pub fn heap_bound(spec: &Spec) -> isize {
     b
 }
 
+/// rough cost of one update() of the tree, in units of a few nanoseconds (sizes the ultra-long runs)
+pub fn work_per_update(spec: &Spec) -> usize {
+    let mut w = 0usize;
+    spec.walk(&mut |s| {
+        w += match s.k {
+            K::Net => 8 + s.n * s.n,
+            K::CoG | K::Cti | K::TrendFlex | K::ReFlex | K::CyberCycle | K::Pfe | K::Min | K::Max | K::HLNormalizer | K::Eft => 4 + s.n,
+            _ => 4,
+        }
+    });
+    w
+}
+
+/// In such a tree every buffer reaches its final capacity within the warm-up L0, whatever the data:
+/// readiness of every node that feeds another buffered node is a matter of counting delivered values.
+/// Excluded: EFT (its moving average is fed only while the window is not flat) and any tree in which a view
+/// whose first output depends on the data (Roc: non-zero base; LaguerreRSI: cu+cd != 0; ReFlex: ms > 0;
+/// PFE: its MA's readiness) sits *below* another node.
+pub fn strict_safe(spec: &Spec) -> bool {
+    if spec.contains(K::Eft) {
+        return false;
+    }
+    fn below_root_ok(s: &Spec, is_root: bool) -> bool {
+        if !is_root && matches!(s.k, K::Roc | K::LaguerreRsi | K::ReFlex | K::Pfe | K::LnReturn | K::MyRsi | K::TrendFlex) {
+            return false;
+        }
+        s.kids.iter().all(|k| below_root_ok(k, false))
+    }
+    below_root_ok(spec, true)
+}
+
 /// first checkpoint at which the live heap exceeds `copies` times the bound
 fn grew(points: &[(usize, isize)], bound: isize) -> Option<(usize, isize)> {
     points.iter().copied().find(|&(_, b)| b > bound)
@@ -214,7 +245,13 @@ impl Prop for C18 {
         let reference = if fork { 2 * l0 } else { l0 };
         // at least two doublings after the reference checkpoint
         let min_len = 4 * reference + 1;
-        let len = match tier {
+        // ultra-long runs (beyond 2^22 and 2^23 deliveries) for trees that are cheap enough: a leak of one slot
+        // per few million updates only shows there, and only under the strict no-growth oracle
+        let ultra = r.chance(if tier == Tier::Quick { 0.004 } else { 0.01 });
+        let len = if ultra {
+            (120_000_000 / work_per_update(&tree)).clamp(min_len.max(40_000), 9_000_000)
+        } else {
+            match tier {
             Tier::Quick => min_len.max(40_000).min(400_000),
             Tier::Thorough => {
                 if r.chance(0.002) {
@@ -225,9 +262,10 @@ impl Prop for C18 {
                     min_len.max(60_000)
                 }
             }
+            }
         };
         sc.trees.push(tree);
-        sc.feeds.push(Feed::Gen { seed: r.next_u64(), shape, len, scale, positive });
+        sc.feeds.push(Feed::Gen { seed: r.next_u64(), shape, len, scale, positive, quant: 0.0 });
         sc.set_int("fork_at", if fork { l0 as i64 } else { -1 });
         sc.set_int("drop_orig", r.chance(0.5) as i64);
         let reclone = sc.trees[0].cloneable() && r.chance(0.15);
@@ -290,6 +328,27 @@ impl Prop for C18 {
                 if m.points.windows(2).any(|w| w[1].1 > w[0].1) {
                     out.stats.hit("reach.late_capacity_growth_within_bound");
                 }
+                // strict no-growth oracle where it is sound: no clone juggling, and a tree whose buffers are all
+                // at their final capacity after the warm-up whatever the data
+                let strict = reclone == 0 && strict_safe(spec);
+                if strict {
+                    out.stats.hit("oracle.strict_no_growth_runs");
+                    let (n0, b0) = m.points[0];
+                    if let Some(&(n1, b1)) = m.points[1..].iter().find(|&&(_, b)| b > b0) {
+                        if out.violation.is_none() && b1 <= bound {
+                            let key = spec.k.name().to_string();
+                            out.violation = Some(Violation::new(
+                                "heap_growth_after_warmup",
+                                key,
+                                n1,
+                                format!("{}: live heap attributed to the view grew from {} B after {} deliveries to {} B after {} deliveries, although every buffer of this tree is at its final capacity after the warm-up (all checkpoints: {:?})", spec.show(), b0, n0, b1, n1, m.points),
+                            ));
+                        }
+                    }
+                }
+                if m.deliveries >= 8_400_000 {
+                    out.stats.hit("reach.run_beyond_2pow23");
+                }
                 if let Some((n1, b1)) = grew(&m.points, bound) {
                     let key = culprit_growth(spec, &vals);
                     out.violation = Some(Violation::new(
@@ -305,7 +364,7 @@ impl Prop for C18 {
     }
 
     fn rule(&self) -> String {
-        "Block 1: every wrapper alone under each of the 14 workload shapes (which branch pushes can depend on the data). Block 2: every ordered pair of wrappers as a two-level chain. Block 3: random trees (depth 1-3, combinators, stalls). 15% of runs replace the replica by its own clone every 1/7/100/1000 deliveries (dropping the original); 30% of runs clone the replica after the warm-up L0 = 8*(sum of window lengths)+256 deliveries and continue with the clone (dropping the original in half of them). Streams come from the seeded generator: quick 40k-400k deliveries, thorough 60k+, 5% 400k+, 0.2% 4,000,001. A counting #[global_allocator] keeps per-thread live bytes; the harness allocates nothing between construction and the last checkpoint. Oracle: at every checkpoint R, 2R, 4R, 8R, ... (R = L0, or fork point + L0) the live bytes stay below a bound that depends on the window lengths only (per node 1 KiB + eight 8-byte buffers at twice the next power of two above the window; about 5-10x the real footprint). A push-per-update leak of one f64 exceeds it within a few thousand deliveries. (A first version demanded 'no growth after L0'; that raised a false alarm on EFT, whose moving average is fed only when the window is not flat and therefore reaches its final capacity late. Removed.) distinct = distinct (topology, feed length, fork choice); non-trivial = at least three checkpoints (two doublings) were compared."
+        "Block 1: every wrapper alone under each of the 14 workload shapes (which branch pushes can depend on the data). Block 2: every ordered pair of wrappers as a two-level chain. Block 3: random trees (depth 1-3, combinators, stalls). 15% of runs replace the replica by its own clone every 1/7/100/1000 deliveries (dropping the original); 30% of runs clone the replica after the warm-up L0 = 8*(sum of window lengths)+256 deliveries and continue with the clone (dropping the original in half of them). Streams come from the seeded generator: quick 40k-400k deliveries, thorough 60k+, 5% 400k+, 0.2% 4,000,001. A counting #[global_allocator] keeps per-thread live bytes; the harness allocates nothing between construction and the last checkpoint. Oracle 2 (strict, only where sound: trees without EFT in which no view with data-dependent readiness sits below another node, and no re-cloning): the live bytes at 2R, 4R, ... must not exceed the live bytes at R at all. 0.4% (thorough 1%) of the runs are ultra-long, up to 9 000 000 deliveries, sized by the tree's cost per update. Oracle 1: at every checkpoint R, 2R, 4R, 8R, ... (R = L0, or fork point + L0) the live bytes stay below a bound that depends on the window lengths only (per node 1 KiB + eight 8-byte buffers at twice the next power of two above the window; about 5-10x the real footprint). A push-per-update leak of one f64 exceeds it within a few thousand deliveries. (A first version demanded 'no growth after L0'; that raised a false alarm on EFT, whose moving average is fed only when the window is not flat and therefore reaches its final capacity late. Removed.) distinct = distinct (topology, feed length, fork choice); non-trivial = at least three checkpoints (two doublings) were compared."
             .into()
     }
     fn assumptions(&self) -> Vec<String> {
